@@ -541,6 +541,7 @@ struct registry
     std::map<std::string, enum_ops> enums;
     std::map<std::string, level_struct> structs;
     std::map<std::string, leaf_ops> leaves;
+    std::map<std::string, std::function<bytes(char*, std::size_t, ipath)>> setbits;
     std::map<std::string, level_ops> levels;
     std::map<std::string, group_ops> groups;
     std::map<std::string, data_ops> data;
@@ -557,6 +558,13 @@ struct reg_leaf
     reg_leaf(const char* k, leaf_ops o)
     {
         registry::get().leaves[k] = std::move(o);
+    }
+};
+struct reg_setbits
+{
+    reg_setbits(const char* k, std::function<bytes(char*, std::size_t, ipath)> f)
+    {
+        registry::get().setbits[k] = std::move(f);
     }
 };
 struct reg_level
@@ -882,6 +890,25 @@ void assign_data(D d, const bytes& b)
                 auto par = LV(M{p, n}, ip) PARENT;                            \
                 KIND(par, ACC, b);                                            \
             }})
+
+// the declared choices of a set read one by one through their named getters:
+// returns the value recomposed from them followed by the mask of declared bits
+#define VH_CH(NAME, IDX)                                                       \
+    mask[(IDX) / 8] |= static_cast<std::uint8_t>(1u << ((IDX) % 8));          \
+    if(s.NAME())                                                              \
+        out[(IDX) / 8] |= static_cast<std::uint8_t>(1u << ((IDX) % 8));
+#define VH_REG_SETBITS(KEY, M, LV, PARENT, ACC, CHOICES)                      \
+    static ::vh::reg_setbits VH_CAT(vh_r_, __COUNTER__)(                      \
+        KEY,                                                                  \
+        [](char* p, std::size_t n, ::vh::ipath ip) -> ::vh::bytes             \
+        {                                                                     \
+            auto par = LV(M{p, n}, ip) PARENT;                                \
+            const auto s = par.ACC();                                         \
+            ::vh::bytes out(sizeof(*s), 0), mask(sizeof(*s), 0);              \
+            CHOICES                                                           \
+            out.insert(out.end(), mask.begin(), mask.end());                  \
+            return out;                                                       \
+        })
 
 #define VH_REG_FIELD(KEY, M, LV, NAME, ISCONST)
 
